@@ -251,7 +251,9 @@ class CFG:
         binds: Dict[str, List] = {}
         bad: Set[str] = set()
         a = self.func.args
-        for x in a.posonlyargs + a.args + a.kwonlyargs + ([a.vararg] if a.vararg else []) + ([a.kwarg] if a.kwarg else []):
+        # (a parameter that the body only ever re-binds to True / False / None can be threaded too: its value at
+        # entry is simply unknown)
+        for x in ([a.vararg] if a.vararg else []) + ([a.kwarg] if a.kwarg else []):
             bad.add(x.arg)
         const_targets = set()
         for n in walk_local(self.func, include_root=False):
